@@ -216,7 +216,7 @@ func checkPmt(c *vrun.Ctx, rng *rand.Rand, pool []*wire.MsgTx, cs, ex tla.Value,
 	c.AddTraces(1)
 	st.add("cases")
 	c.Distinct(fmt.Sprintf("pmt/n=%d/bits=%v", n, ex.F("bits").Ints()))
-	if n == 5 && len(M) == 2 {
+	if n == 5 && len(M) == 2 && M[0] == 2 && M[1] == 3 {
 		c.Sample(map[string]any{"kind": "partial-merkle-tree", "n": n, "matched": M, "bits": ex.F("bits").Ints(), "flags": fmt.Sprintf("%x", wantFlags), "hashes": ex.F("hashes").String()})
 	}
 
